@@ -25,7 +25,8 @@ RULE = ("cases = call histories run(a1), ..., run(ak), k = 2..6, on one parser o
         "returned result is re-compared after each later call; a common list of (script, flags, args) cases is digested in every "
         "worker process, workers running under PYTHONHASHSEED 0, 1, 4242, 31337, random...; every run() executes in an empty scratch "
         "cwd under a file-system audit hook. Non-trivial = history with >= 2 different argument sets on a script with >= 2 "
-        "entities; distinct = distinct (script, history).")
+        "entities; distinct = distinct (script, history)."
+        " Added after seeded defects: file_path / dump_path arguments without dump, parse_from_file under the file monitor, empty scripts, cross-script histories (B alters a table only A defines).")
 ASSUMPTIONS = ["'another process' = same machine, same interpreter build", "dump=False throughout (C19 owns dumping)"]
 MIN_EVENTS = {"run_return": 500}
 HASHSEEDS = ["0", "1", "4242", "31337", "random", "7", "99999", "random"]
